@@ -6,7 +6,7 @@ PROP = {
     "streams": [{"name": "robust"}],
     "rule": "robust: (1) exhaustive boundary matrix: every filter registered in filters/*.go (read from the source at run "
             "time) x receiver in U x argument tuples in U^arity plus one over-arity call, every comparison/boolean "
-            "operator x U x U, 31 access/loop/tag forms x U (x U), U = 19 (quick) / 54 (thorough) boundary values; a "
+            "operator x U x U, 31 access/loop/tag forms x U (x U), U = 21 (quick) / 56 (thorough) boundary values (typed zeros int64(0), uint(0) included); a "
             "family of pure templates over ranges with extreme endpoints and lengths around the array-conversion bound; "
             "(2) every sequence of <= 3 (thorough: 4) tokens of the expression lexer in 6 expression contexts; "
             "(3) grammar-generated templates x generated environments (all tags, filters, operators; measured "
